@@ -768,7 +768,7 @@ pub fn run_history(case: &Case, backend: Backend, via: Via, or: Oracles, st: &mu
         let steps_before = h.steps.len();
         h.step(idx, op, st)?;
         let last = if h.steps.len() > steps_before { h.steps.last().cloned() } else { None };
-        let walk_now = n <= 12 || idx + 1 == n || (crate::engine::mix(case.salt as u64, "walk", idx as u64) % 8 == 0);
+        let walk_now = n <= 12 || idx + 1 == n || (n <= 200 && crate::engine::mix(case.salt as u64, "walk", idx as u64) % 8 == 0);
         if or.c01 && walk_now {
             let clients = h.clients.clone();
             for c in clients {
